@@ -794,8 +794,11 @@ class Translator:
             else:
                 binary(name, name, params[1], other_vec(name, d, cname), ("vec", d, cname), [["pose", cname]])
         # `p += q` : BasePose.__iadd__ (base_pose.py) — inherited, translated once per class and operand kind
-        brel = "pose/base_pose.py"
-        bfn = self.find_func(self.find_class(brel, "BasePose").body, "__iadd__", brel)
+        if "__iadd__" in funcs:  # an override in the class itself takes precedence (MRO)
+            brel, bfn = rel, funcs["__iadd__"]
+        else:
+            brel = "pose/base_pose.py"
+            bfn = self.find_func(self.find_class(brel, "BasePose").body, "__iadd__", brel)
         bparams = [a.arg for a in bfn.args.args]
         for lm, oval, okind, pyargs in (
             ("iadd", Vec(cname, [("arg", bparams[1], i) for i in range(d)], lean=bparams[1]), ("vec", d, cname), [["pose", cname]]),
